@@ -130,3 +130,14 @@ Theorem c09_pem_no_fault : forall buf limit pemType,
   safe (pem_check_ok buf limit pemType) /\ safe (pem_decode buf limit) /\ safe (pem_cert_list buf limit).
 Proof. exact p09_pem_no_fault. Qed.
 Print Assumptions c09_pem_no_fault.
+
+(* psPemDecode including the `Proc-Type: 4,ENCRYPTED` / `DEK-Info:` header handling (both cipher branches, the
+   hex IV read character by character through rd): safe and total on every byte string, with or without
+   a password; on success the IV has exactly the cipher's length and the body is a whole number of blocks *)
+Theorem c09_pem_encrypted_no_fault : forall haspw buf limit,
+  holds buf limit ->
+  safe (pem_decode_pw haspw buf limit) /\
+  (forall k iv out, pem_decode_pw haspw buf limit = Ok (k, iv, out) ->
+     (k = 0 /\ iv = []) \/ (k = 1 /\ lenN iv = 8 /\ lenN out mod 8 = 0) \/ (k = 2 /\ lenN iv = 16 /\ lenN out mod 16 = 0)).
+Proof. exact p09_pem_encrypted_no_fault. Qed.
+Print Assumptions c09_pem_encrypted_no_fault.
